@@ -520,7 +520,8 @@ def packed_exprs(fn: ast.FunctionDef, call: ast.Call) -> list[str]:
 
 # ------------------------------------------------------------------------------------------------ main
 def translate() -> tuple[str, dict]:
-    tree = ast.parse(src_text('bsp.py'))
+    from translate import c11_norm
+    tree = c11_norm.struct_constants(ast.parse(src_text('bsp.py')))
     consts: dict[str, Any] = {}
     for n in tree.body:
         if isinstance(n, ast.Assign) and len(n.targets) == 1 and isinstance(n.targets[0], ast.Name) \
